@@ -201,26 +201,32 @@ def density(ctx, I):
     if tc:
         t = tc[0].targets[0]
         names = [e.id for e in t.elts] if isinstance(t, ast.Tuple) else []
-    ctx.ob("C20.density", "grid points are the Lambert projection of the same counters", bool(lam) and bool(names)
-           and [a.id for a in lam[0].args[:3] if isinstance(a, ast.Name)] == names, f"to_cartesian -> {names}", loc)
-    # the projection as it is called here, for axial and for directed data: grid points stay in the closed unit disk (r^2 = 1-|z|)
+    lam_def = ctx.program.require("pydrex.geometry.lambert_equal_area")
+    pnames = [a.arg for a in lam_def.args.posonlyargs + lam_def.args.args]
+    bound = {}
     if lam:
+        for p, a in zip(pnames, lam[0].args):
+            bound[p] = a
+        for k in lam[0].keywords:
+            if k.arg is not None:
+                bound[k.arg] = k.value
+    first3 = [bound.get(p) for p in pnames[:3]]
+    ctx.ob("C20.density", "grid points are the Lambert projection of the same counters", bool(lam) and bool(names)
+           and [a.id if isinstance(a, ast.Name) else None for a in first3] == names, f"to_cartesian -> {names}", loc)
+    # the projection as it is called here, for axial and for directed data: grid points stay in the closed unit disk (r^2 = 1-|z|)
+    extra = {p: v for p, v in bound.items() if p not in pnames[:3]}
+    if lam and extra:
         from ..interp import Env
         for axial in (True, False):
             env = Env(mod)
             env.vars["axial"] = axial
             try:
-                ea = [I.ev(a, env) for a in lam[0].args[3:]]
-                ek = {k.arg: I.ev(k.value, env) for k in lam[0].keywords}
+                ek = {p: I.ev(v, env) for p, v in extra.items()}
             except Exception as ex:
                 ctx.ob("C20.density", f"projection call arguments (axial={axial})", "inconclusive", f"cannot evaluate the extra arguments of the projection call: {ex}", loc)
                 continue
-            if axial and not ea and not ek:
-                continue   # plain three-argument call: already decided by C20.lambert
-            lambert(ctx, I, "pydrex.geometry.", ea, ek, tag=f"as called from point_density(axial={axial}): ",
+            lambert(ctx, I, "pydrex.geometry.", (), ek, tag=f"as called from point_density(axial={axial}): ",
                     loc=f"{ctx.program.relpath(mod.path)}:{lam[0].lineno}")
-            if not ea and not ek:
-                break
     # weights multiply the kernel values before they are summed
     wmul = [n for n, s in cfg.stmt.items() if isinstance(s, (ast.AugAssign, ast.Assign)) and "weights" in ast.unparse(getattr(s, "value", s)) and
             (isinstance(s, ast.AugAssign) and isinstance(s.op, ast.Mult) or isinstance(getattr(s, "value", None), ast.BinOp))]
